@@ -301,3 +301,85 @@ func (m *noMuxer) Listener(id uint32, d <-chan struct{}) (net.Listener, error) {
 func (m *noMuxer) AcceptKnock(id uint32) error                                 { return nil }
 func (m *noMuxer) Dial() (net.Conn, error)                                     { return nil, nil }
 func (m *noMuxer) Close() error                                                { return nil }
+
+// C09, gRPC broker without multiplexing: <= 2 dials nobody accepts (IDs not assumed distinct), optionally an accept
+// nobody dials (its connection info is parked on the other side and expires), at symbolic instants; then a fresh pair
+// must still be routed, and closing the brokers ends their goroutines.
+func harnessC09grpc() {
+	h2p, p2h := make(chan *plugin.ConnInfo, 8), make(chan *plugin.ConnInfo, 8)
+	hs := &gRPCBrokerClientImpl{client: vBrokerClient{h2p, p2h}, send: make(chan *sendErr), recv: make(chan *plugin.ConnInfo), quit: make(chan struct{})}
+	go func() { vDaemon(); hs.StartStream() }()
+	ps := newGRPCBrokerServer()
+	go func() { vDaemon(); ps.StartStream(&vBidi{vStreamBase{vCtx{}}, p2h, h2p}) }()
+	hb := newGRPCBroker(hs, nil, UnixSocketConfig{}, nil, nil2())
+	pb := newGRPCBroker(ps, nil, UnixSocketConfig{}, nil, nil2())
+	hRun, pRun := false, false
+	go func() { vDaemon(); hb.Run(); hRun = true }()
+	go func() { vDaemon(); pb.Run(); pRun = true }()
+
+	x1, x2, a := vNondetU32("x1"), vNondetU32("x2"), vNondetU32("a")
+	t1, t2, tA := vNondetTime("t1"), vNondetTime("t2"), vNondetTime("tA")
+	vAssume(t1 <= t2)
+	vAssume(a != x1 && a != x2) // the accept is for an ID nobody dials (otherwise it would be a matched pair)
+	n := 1 + vChoice(2)
+	last := t1
+	done := make(chan struct{}, 3)
+	go func() {
+		vSleepUntil(t1)
+		t0 := vNow()
+		_, err := hb.Dial(x1)
+		vAssert(err != nil, "C09: a dial nobody accepts returns an error")
+		vAssert(vNow()-t0 <= 6*sec, "C09: an unmatched dial returns within the pending window")
+		done <- struct{}{}
+	}()
+	if n == 2 {
+		last = t2
+		go func() {
+			vSleepUntil(t2)
+			t0 := vNow()
+			_, err := hb.Dial(x2)
+			vAssert(err != nil, "C09: a second dial nobody accepts returns an error")
+			vAssert(vNow()-t0 <= 6*sec, "C09: an unmatched dial returns within the pending window")
+			done <- struct{}{}
+		}()
+	} else {
+		done <- struct{}{}
+	}
+	if vChoice(2) == 1 {
+		vCover("lonely-accept")
+		if tA > last {
+			last = tA
+		}
+		go func() {
+			vSleepUntil(tA)
+			_, err := pb.Accept(a) // nobody dials a: the info sits on the host side until it expires
+			vAssert(err == nil, "C09: an accept without a dial still returns its listener")
+			done <- struct{}{}
+		}()
+	} else {
+		done <- struct{}{}
+	}
+	for i := 0; i < 3; i++ {
+		<-done
+	}
+	vCover("history-done")
+
+	f := vNondetU32("f")
+	vAssume(f != x1 && f != x2 && f != a)
+	vSleepUntil(last + 12*sec)
+	lnF, e1 := pb.Accept(f)
+	cF, e2 := hb.Dial(f)
+	vAssert(e1 == nil && e2 == nil, "C09: after the history a fresh accept/dial pair still succeeds")
+	nf, errF := connG[cF].dialer("", 0)
+	vAssert(errF == nil, "C09: the fresh connection reaches a live listener")
+	gotF, _ := lnF.Accept()
+	vAssert(gotF.(*vNetConn) == nf.(*vNetConn).peer, "C09: the fresh pair is connected")
+	vCover("fresh-pair")
+
+	hb.Close()
+	pb.Close()
+	vSleepUntil(vNow() + sec)
+	vAssert(hRun && pRun, "C09: closing the brokers ends their Run goroutines")
+	vCover("closed")
+	vDone()
+}
